@@ -161,12 +161,19 @@ def run(tier):
             else:
                 ops.append(f'emit {k} {f:#x} {t:#x}')
     ops = list(dict.fromkeys(ops))
+    # emitters are pure: results of concurrent callers (shared scratch buffers would show) must equal the hand-written encoding
+    for g in (2, 8, 16):
+        ops.append(f'conc amd64.stub {0x7f0000001000 + g:#x} {g}')
+        ops.append(f'conc amd64.entry {0xc000100000 + g:#x} {g}')
     impl, model, derr = execute(ops)
     # 1. the property on the implementation
     bad = []
     for i, op in enumerate(ops):
         _, k, f, t = op.split()
-        why = oracle(k, int(f, 16), int(t, 16), impl[i])
+        if op.startswith('conc '):
+            why = None if impl[i] == 'conc ok' else f'concurrent callers of the emitter got wrong bytes: {impl[i]}'
+        else:
+            why = oracle(k, int(f, 16), int(t, 16), impl[i])
         if why:
             bad.append((i, op, why))
     for i, op, why in bad[:3]:
@@ -186,7 +193,7 @@ def run(tier):
             out.violation('proof obligations of Props/C15.lean no longer check and no failing input was found in the search',
                           {'kind': 'proof', 'broken': proof['failed'], 'searched': len(ops), 'output': proof.get('output', '')[-3000:]},
                           no_failing_input=True)
-    nontrivial = len({(op.split()[1], impl[i]) for i, op in enumerate(ops) if impl[i] and 'undecodable' not in impl[i]})
+    nontrivial = len({(op.split()[1], impl[i]) for i, op in enumerate(ops) if impl[i] and 'undecodable' not in impl[i] and not op.startswith('conc ')})
     rel = sum(1 for i, op in enumerate(ops) if op.split()[1] == 'amd64.origin' and impl[i] and len(dict(p.split('=', 1) for p in impl[i].split() if '=' in p).get('bytes', '')) == 10)
     nor = sum(1 for op in ops if op.split()[1] == 'amd64.origin')
     out.coverage = {
@@ -215,7 +222,7 @@ def replay(body):
     rc = 0
     for i, op in enumerate(ops):
         _, k, f, t = op.split()
-        why = oracle(k, int(f, 16), int(t, 16), impl[i])
+        why = (None if impl[i] == 'conc ok' else str(impl[i])) if op.startswith('conc ') else oracle(k, int(f, 16), int(t, 16), impl[i])
         print(f'{op}\n  impl : {impl[i]}\n  model: {model[i] if model else None}\n  oracle: {why or "ok"}')
         if why or (model and impl[i] != model[i]):
             rc = 1
